@@ -331,6 +331,7 @@ func checkC19(ctx *Ctx, r *Report, tier string) {
 		r.undecided("K1h", "dcProcessEdgeMask", p, err.Error())
 	}
 	checkDCOrientationV1(ctx, r)
+	checkLeafCornerLattice(ctx, r)
 	checkDCV2(ctx, r)
 	n := 0
 	for _, f := range axisLint(ctx, "render/dc") {
@@ -872,4 +873,108 @@ func readVecTableI(ctx *Ctx, pkg, name string) ([][]int, token.Pos, error) {
 		out = append(out, row)
 	}
 	return out, pos, nil
+}
+
+// ---------------------------------------------------------------- K6: shared corner samples
+
+// checkLeafCornerLattice: a lattice corner is shared by up to eight octree leaves, and every
+// leaf decides the corner's sign from its own evaluation of the SDF there. The leaves agree -
+// and the surface closes - only if they evaluate at bit-identical coordinates, i.e. if the
+// position is one floating-point function of the integer lattice index (leaf offset + corner
+// offset, added as integers). A position assembled in floating point from the leaf's origin
+// plus a multiple of the cell size is rounded differently in neighbouring leaves. Decided on
+// float-faithful terms of the eight corner evaluations of computeOctreeLeaf (loop unrolled).
+func checkLeafCornerLattice(ctx *Ctx, r *Report) {
+	fn := ctx.ssaFunc("render/dc", "(*dcOctree).computeOctreeLeaf")
+	key := "computeOctreeLeaf|corner-positions-are-one-function-of-the-integer-lattice-index"
+	if fn == nil {
+		r.undecided("K6", key, 0, "not found")
+		return
+	}
+	ev := newEval(ctx, "dcApproximateZeroCrossingPosition", "dcCalculateSurfaceNormal")
+	ev.faithful = true
+	ev.evalRoot(fn)
+	var corners []Event
+	for _, e := range ev.Events {
+		if e.Callee == "invoke:d.Evaluate" || strings.HasSuffix(e.Callee, ".Evaluate") && strings.HasPrefix(e.Callee, "invoke:") {
+			corners = append(corners, e)
+		}
+	}
+	if len(corners) < 8 || ev.Exceeded {
+		r.check("K6", key, fn.Pos(), false, fmt.Sprintf("%d corner evaluations found on the unrolled corner loop (expected 8)", len(corners)))
+		return
+	}
+	corners = corners[:8]
+	recv := fn.Params[0].Name()
+	ok := true
+	detail := ""
+	var shape0 [3]string
+	for ci, e := range corners {
+		m := map[string]*Term{}
+		if len(e.Args) > 0 {
+			leafTerms("", e.Args[len(e.Args)-1], m)
+		}
+		for ai, ax := range []string{"X", "Y", "Z"} {
+			t := m["."+ax]
+			if t == nil {
+				ok = false
+				detail += fmt.Sprintf(" corner %d: position is not a closed form;", ci)
+				continue
+			}
+			atom := recv + ".minOffset." + ax
+			// the maximal integer sub-terms that carry the leaf offset
+			nInt := 0
+			shape := rebuildRaw(t, func(x *Term) *Term {
+				if x.Op == "conv" && strings.HasPrefix(x.S, "float") {
+					as := map[string]bool{}
+					x.Atoms(as)
+					if as[atom] {
+						if hasFloatOp(x.Args[0]) {
+							return nil
+						}
+						nInt++
+						return A("□")
+					}
+				}
+				return nil
+			})
+			as := map[string]bool{}
+			shape.Atoms(as)
+			if as[atom] || nInt == 0 {
+				ok = false
+				detail += fmt.Sprintf(" corner %d axis %s: the leaf offset enters the position outside an integer lattice index (%s);", ci, ax, shortKey(t.Key(), 140))
+				continue
+			}
+			if ci == 0 {
+				shape0[ai] = shape.Key()
+			} else if shape.Key() != shape0[ai] {
+				ok = false
+				detail += fmt.Sprintf(" corner %d axis %s is computed by a different sequence of operations than corner 0;", ci, ax)
+			}
+		}
+	}
+	if len(detail) > 700 {
+		detail = detail[:700] + "…"
+	}
+	r.check("K6", key, fn.Pos(), ok, "every corner sample position is F(float(leaf offset + corner offset)) with one F: neighbouring leaves evaluate shared corners at identical coordinates;"+detail)
+	r.floor("K6", 1)
+}
+
+// rebuildRaw maps f over t top-down without re-normalising (float-faithful terms must keep their shape).
+func rebuildRaw(t *Term, f func(*Term) *Term) *Term {
+	if r := f(t); r != nil {
+		return r
+	}
+	if len(t.Args) == 0 {
+		return t
+	}
+	args := make([]*Term, len(t.Args))
+	for i, a := range t.Args {
+		args[i] = rebuildRaw(a, f)
+	}
+	return &Term{Op: t.Op, S: t.S, Args: args, C: t.C}
+}
+
+func hasFloatOp(t *Term) bool {
+	return len(findSub(t, func(x *Term) bool { return x.Op == "f+" || x.Op == "f*" || x.Op == "f/" || x.Op == "fneg" })) > 0
 }
